@@ -43,7 +43,12 @@ static void dump_entry(DIRFILE *D)
 {
   gd_entry_t E;
   int i;
-  if (gd_entry(D, "x", &E)) { printf(" X:-"); return; }
+  /* the entry under test: x, the metafield p/x, or a field named like a reserved word */
+  static const char *names[] = { "x", "p/x", "VERSION", "ENDIAN", "PROTECT", "INCLUDE", "ENCODING", "META", "REFERENCE",
+    "FRAMEOFFSET", "ALIAS", "HIDDEN", "NAMESPACE", NULL };
+  const char *xname = NULL;
+  for (i = 0; names[i]; i++) if (gd_entry(D, names[i], &E) == 0) { xname = names[i]; break; }
+  if (!xname) { printf(" X:-"); return; }
   printf(" X:");
   switch (E.field_type) {
     case GD_RAW_ENTRY: printf("RAW:%x:", E.EN(raw,data_type)); if (!sfield(&E, 0)) printf("L%u", E.EN(raw,spf)); break;
@@ -88,11 +93,11 @@ static void dump_entry(DIRFILE *D)
       break;
     case GD_CONST_ENTRY: printf("CONST:%x", E.EN(scalar,const_type)); break;
     case GD_CARRAY_ENTRY: printf("CARRAY:%x:%zu", E.EN(scalar,const_type), (size_t)E.EN(scalar,array_len)); break;
-    case GD_STRING_ENTRY: { char buf[4096]; buf[0] = 0; gd_get_string(D, "x", sizeof buf, buf); printf("STRING:"); hexs(buf); } break;
+    case GD_STRING_ENTRY: { char buf[4096]; buf[0] = 0; gd_get_string(D, xname, sizeof buf, buf); printf("STRING:"); hexs(buf); } break;
     case GD_SARRAY_ENTRY: {
-      size_t n = gd_array_len(D, "x"), k; const char *v[64];
+      size_t n = gd_array_len(D, xname), k; const char *v[64];
       printf("SARRAY:");
-      if (n <= 64 && gd_get_sarray(D, "x", v) == 0) for (k = 0; k < n; k++) { if (k) printf(","); hexs(v[k]); }
+      if (n <= 64 && gd_get_sarray(D, xname, v) == 0) for (k = 0; k < n; k++) { if (k) printf(","); hexs(v[k]); }
     } break;
     default: printf("?%d", E.field_type);
   }
